@@ -24,6 +24,12 @@ theorem C01_agreement_of_rules {N : Type} [Fintype N] [DecidableEq N] (c : QAbs.
     (hD : QAbs.At c k (.D i r v)) (hD' : QAbs.At c k' (.D j r' v')) : v = v' :=
   QAbs.agreement (c := c) R hi hj hD hD'
 
+/-- non-vacuity: a concrete 4-member trace (member 3 Byzantine; members 0,1,2 prepare, commit and decide value 7 in round 1)
+    satisfies all eight rules, and contains two decisions of different correct operators -/
+example : QAbs.Rules QAbs.exCtx ∧ QAbs.At QAbs.exCtx 6 (.D 0 1 7) ∧ QAbs.At QAbs.exCtx 8 (.D 2 1 7) ∧
+    (0 : Fin 4) ∉ QAbs.exCtx.byz ∧ (2 : Fin 4) ∉ QAbs.exCtx.byz :=
+  ⟨QAbs.exRules, rfl, rfl, by decide, by decide⟩
+
 /-- the quorum arithmetic the rules rely on (two quorums intersect in more than f members, a quorum and f+1 members
     intersect), from the kernel translated from `ComputeQuorumAndPartialQuorum` on every run, for every committee size the
     node accepts -/
